@@ -7,12 +7,12 @@ package main
 // lean/KM/Model/GoTypes.lean.
 
 var urlExterns = map[string]glExtern{
-	"url.Parse":             {"ext.urlParse", []string{"*url.URL", "error"}},
-	"regexp.MatchString":    {"ext.reMatch", []string{"bool", "error"}},
-	"*url.URL.Scheme":       {"KM.GoTypes.urlScheme", []string{"string"}},
-	"*url.URL.RawQuery":     {"KM.GoTypes.urlRawQuery", []string{"string"}},
-	"*url.URL.Path":         {"KM.GoTypes.urlPath", []string{"string"}},
-	"*url.URL.Hostname()":   {"KM.GoTypes.urlHostname", []string{"string"}},
+	"url.Parse":           {lean: "ext.urlParse", ret: []string{"*url.URL", "error"}},
+	"regexp.MatchString":  {lean: "ext.reMatch", ret: []string{"bool", "error"}},
+	"*url.URL.Scheme":     {lean: "KM.GoTypes.urlScheme", ret: []string{"string"}},
+	"*url.URL.RawQuery":   {lean: "KM.GoTypes.urlRawQuery", ret: []string{"string"}},
+	"*url.URL.Path":       {lean: "KM.GoTypes.urlPath", ret: []string{"string"}},
+	"*url.URL.Hostname()": {lean: "KM.GoTypes.urlHostname", ret: []string{"string"}},
 }
 
 func init() {
@@ -25,7 +25,7 @@ func init() {
 			paths: map[string][2]string{
 				"r.FormValue(\"login_destination\")": {"formValue", "string"},
 				"r.Form.Get(\"login_destination\")":  {"formValue", "string"},
-				"profilePath":                         {"\"/profile/\".toList", "string"}},
+				"profilePath":                        {"\"/profile/\".toList", "string"}},
 			retLean: "List Char"},
 		// C13
 		glTarget{pkg: "cmd/keymasterd", name: "hostMatchesDomain", group: "Oidc", retLean: "Bool"},
@@ -49,6 +49,39 @@ func init() {
 				"state.Config.OpenIDConnectIDP.Client": {"clients", "[]OpenIDConnectClientConfig"},
 				"ErrorIDPClientNotFound":               {"(some \"client not found\".toList)", "error"}},
 			retLean: "Option KM.GoTypes.OpenIDConnectClientConfig × Option KM.Go.Err"},
+		// C07: lib/pwauth/ldap passwordAuthenticate — the directory loop, the refresh/evict call, the offline fallback
+		glTarget{pkg: "lib/pwauth/ldap", name: "passwordAuthenticate", group: "PwAuth",
+			binders:   "{σ : Type} (ext : KM.GoTypes.LdapExt σ) (servers : List σ) (patterns : List (List Char)) (hasStorage : Bool)",
+			paramGo:   map[string]string{"password": "string"},
+			traceLean: "KM.GoTypes.PwEffect",
+			paths: map[string][2]string{
+				"pa.ldapURL":        {"servers", "[]*Server"},
+				"pa.bindPattern":    {"patterns", "[]string"},
+				"pa.logger != nil":  {"true", "bool"},
+				"pa.storage != nil": {"hasStorage", "bool"}},
+			externs: map[string]glExtern{
+				"convertToBindDN":                       {lean: "ext.bindDN", ret: []string{"string"}},
+				"authutil.CheckLDAPUserPassword":        {lean: "ext.checkLDAP", ret: []string{"bool", "error"}, args: []int{0, 1, 2}},
+				"pa.updateOrDeletePasswordHash":         {lean: "ext.updateResult", ret: []string{"error"}, effect: "KM.GoTypes.PwEffect.update"},
+				"pa.storage.GetSigned":                  {lean: "ext.getSigned", ret: []string{"bool", "string", "error"}},
+				"authutil.Argon2CompareHashAndPassword": {lean: "ext.argon2Compare", ret: []string{"error"}}},
+			retLean: "(Bool × Option KM.Go.Err) × List KM.GoTypes.PwEffect"},
+		glTarget{pkg: "lib/pwauth/ldap", name: "updateOrDeletePasswordHash", group: "PwAuth",
+			binders:   "(ext : KM.GoTypes.HashStoreExt) (hasStorage : Bool) (expiresAt : Int)",
+			paramGo:   map[string]string{"password": "string"},
+			traceLean: "KM.GoTypes.StoreEffect",
+			paths: map[string][2]string{
+				"pa.storage == nil":                     {"(!hasStorage)", "bool"},
+				"pa.logger != nil":                      {"true", "bool"},
+				"time.Now().Add(pa.expirationDuration)": {"expiresAt", "int"},
+				"Expiration.Unix()":                     {"Expiration", "int"}},
+			externs: map[string]glExtern{
+				"authutil.Argon2MakeNewHash":            {lean: "ext.newHash", ret: []string{"string", "error"}},
+				"pa.storage.UpsertSigned":               {lean: "ext.upsertResult", ret: []string{"error"}, effect: "KM.GoTypes.StoreEffect.upsert"},
+				"pa.storage.GetSigned":                  {lean: "ext.getSigned", ret: []string{"bool", "string", "error"}},
+				"authutil.Argon2CompareHashAndPassword": {lean: "ext.argon2Compare", ret: []string{"error"}},
+				"pa.storage.DeleteSigned":               {lean: "ext.deleteResult", ret: []string{"error"}, effect: "KM.GoTypes.StoreEffect.delete"}},
+			retLean: "Option KM.Go.Err × List KM.GoTypes.StoreEffect"},
 		// C08
 		glTarget{pkg: "cmd/keymasterd", name: "isAutomationAdmin", group: "Admin",
 			binders: "(isAdminUser : List Char → Bool) (automationAdmins : List (List Char))",
@@ -61,7 +94,7 @@ func init() {
 			paths: map[string][2]string{
 				"state.Config.Base.AutomationUsers":      {"automationUsers", "[]string"},
 				"state.Config.Base.AutomationUserGroups": {"automationUserGroups", "[]string"}},
-			externs: map[string]glExtern{"state.getUserGroups": {"getUserGroups", []string{"[]string", "error"}}},
+			externs: map[string]glExtern{"state.getUserGroups": {lean: "getUserGroups", ret: []string{"[]string", "error"}}},
 			retLean: "Bool × Option KM.Go.Err"},
 		// C01: the level test of certGenHandler (the statements between the credential check and the refusal)
 		glTarget{pkg: "cmd/keymasterd", name: "certgenSufficientAuthLevel", group: "CertGen", natInts: true,
